@@ -117,6 +117,24 @@ fn parse_points(text: &str, arity: usize) -> String {
     format!("{}#{}", rows.len(), rows.join(";"))
 }
 
+/// whole-sequence CGR refused the input: whatever it left in the output file must be complete rows of records in
+/// front of the first record with a non-nucleotide byte (row i with one point per base of record i) - a rejected
+/// record never yields coordinates
+fn refusal(out_path: &str, recs: &[Vec<u8>]) -> String {
+    let ok = |b: u8| b"ACGTUacgtu".contains(&b);
+    let first_bad = recs.iter().position(|r| r.iter().any(|&b| !ok(b))).unwrap_or(recs.len());
+    let text = String::from_utf8_lossy(&std::fs::read(out_path).unwrap_or_default()).to_string();
+    if text.is_empty() { return "ERR".into(); }
+    if !text.ends_with('\n') { return "ERR-LEAK unterminated row in the output of a refused run".into(); }
+    let rows: Vec<&str> = text[..text.len() - 1].split('\n').collect();
+    if rows.len() > first_bad { return format!("ERR-LEAK {} rows, the record at index {} is rejected", rows.len(), first_bad); }
+    for (i, row) in rows.iter().enumerate() {
+        let n = row.split(' ').filter(|x| !x.is_empty()).count();
+        if n != recs[i].len() { return format!("ERR-LEAK row {} has {} points, record has {} bases", i, n, recs[i].len()); }
+    }
+    "ERR".into()
+}
+
 fn leftover(dir: &str) -> String {
     let n = std::fs::read_dir(dir).unwrap().filter(|e| e.as_ref().unwrap().file_name().to_string_lossy().starts_with("temp_kmers")).count();
     if n == 0 { "".into() } else { format!("|leftover={}", n) }
@@ -285,7 +303,7 @@ fn cli_run(sub: &str, settings: &str, container: &str, recs_t: &str, alt_t: &str
                 }
             };
             // whole-sequence CGR may refuse a record with a non-nucleotide byte (it does so by panicking)
-            if sub == "cgr" && get("k").is_none() && code != 0 && code != 2 { return "exit=0|ERR".into(); }
+            if sub == "cgr" && get("k").is_none() && code != 0 && code != 2 { return format!("exit=0|{}", refusal(out, &recs)); }
             format!("exit={}|{}", code, payload)
 }
 
@@ -318,7 +336,7 @@ pub fn exec(p: &[&str], scratch: &str) -> String {
             let t: usize = p[2].parse().unwrap(); if t > 0 { c.set_threads(t); }
             c.verif_set_max_memory(p[3].parse().unwrap());
             let r = std::panic::catch_unwind(std::panic::AssertUnwindSafe(|| c.vectorise()));
-            match r { Ok(Ok(())) => parse_points(&String::from_utf8_lossy(&std::fs::read(&out).unwrap()), 2), _ => "ERR".into() }
+            match r { Ok(Ok(())) => parse_points(&String::from_utf8_lossy(&std::fs::read(&out).unwrap()), 2), _ => refusal(&out, &recs) }
         }
         "ocgrfile" => {
             // ocgrfile k S norm threads mem container recs
